@@ -1592,6 +1592,10 @@ bool RegularExpression::doTokenOverlap(const Op* op, Token* token)
         case Token::T_STRING:
             return t1->match(*token->getString());
         case Token::T_RANGE:
+            // the ranges of a negated class are the characters it excludes;
+            // intersecting with them says nothing about an overlap
+            if (t1->getTokenType() == Token::T_NRANGE)
+                break;
             {
                 try
                 {
